@@ -18,6 +18,7 @@ import (
 	"path/filepath"
 	"strings"
 	"sync"
+	"testing"
 	"time"
 )
 
@@ -34,7 +35,19 @@ type c13Reply struct {
 	Recs []Record `json:"recs"` // the case itself, then its self-test variants
 }
 
+// the worker's *testing.T: histories with slow cache writes run in testing/synctest bubbles
+var c13T *testing.T
+
 func c13Worker(o Opts) {
+	// the whole loop runs as a "test" of this plain binary, so that synctest is available;
+	// inTest exits the process when the loop ends
+	inTest(func(t *testing.T) {
+		c13T = t
+		c13WorkerLoop(o)
+	})
+}
+
+func c13WorkerLoop(o Opts) {
 	workdir := filepath.Join(o.Work, "c13tmp")
 	os.MkdirAll(workdir, 0700)
 	defer os.RemoveAll(workdir)
